@@ -264,7 +264,8 @@ def r_close_unknown_only(ctx):
 # ----------------------------------------------------------------------------------------------
 A_ID, B_ID = 0x10, 0x20
 
-# path parts: ("id", n) | ("g", min|None, max|None);  chain: (list of leading ids, tail length interval or None) — tail ids are OTHER
+# path parts: ("id", n) | ("g", min|None, max|None);  chain: (list of leading ids, tail length interval or None[, trailing ids]) — tail ids are OTHER —
+# or ("seq", [id | "o", ...]): a chain of fixed length given master by master, "o" being any master with an id in OTHER
 MATCHER_CLASSES = [
     ("exact", [("id", A_ID), ("id", B_ID)], ([A_ID, B_ID], None), 1, "the chain is exactly the declared path"),
     ("root-at-top", [], ([], None), 1, "a root element with no master open"),
@@ -286,6 +287,18 @@ MATCHER_CLASSES = [
     ("intermediate-placeholder-exceeded", [("id", A_ID), ("g", 0, 1), ("id", B_ID)], ([A_ID], (2, 2), [B_ID]), 0, "an intermediate placeholder (0-1) cannot match two masters"),
     ("intermediate-placeholder-below-min", [("id", A_ID), ("g", 1, None), ("id", B_ID)], ([A_ID, B_ID], None), 0, "an intermediate placeholder (1-) needs a master between the named ones"),
     ("intermediate-placeholder-min-met", [("id", A_ID), ("g", 1, None), ("id", B_ID)], ([A_ID], (1, 1), [B_ID]), 1, "an intermediate placeholder (1-) with one master between the named ones"),
+    # two placeholders separated by a named parent: each placeholder counts its own masters (chains in sequence form: ids and "o" = any other master)
+    ("two-placeholders-second-within", [("id", A_ID), ("g", 1, None), ("id", B_ID), ("g", 1, 2)], ("seq", [A_ID, "o", "o", B_ID, "o", "o"]), 1,
+     "the second placeholder (1-2) matches two masters however many the first one (1-) matched"),
+    ("two-placeholders-second-below-min", [("id", A_ID), ("g", 1, None), ("id", B_ID), ("g", 1, 2)], ("seq", [A_ID, "o", B_ID]), 0,
+     "the second placeholder (1-2) needs a master of its own; what the first one matched does not count"),
+    ("two-placeholders-second-exceeded", [("id", A_ID), ("g", 0, 3), ("id", B_ID), ("g", 1, 2)], ("seq", [A_ID, B_ID, "o", "o", "o"]), 0,
+     "the second placeholder (1-2) cannot match three masters although the first one (0-3) matched none"),
+    ("two-placeholders-first-min-after-second", [("id", A_ID), ("g", 2, None), ("id", B_ID), ("g", None, None), ("id", A_ID)], ("seq", [A_ID, "o", "o", B_ID, "o", A_ID]), 1,
+     "named parents after each of two placeholders, each placeholder within its own bounds"),
+    # a master matched by a placeholder may carry the id of the named parent that follows the placeholder ("arbitrary masters")
+    ("placeholder-matches-named-id", [("id", A_ID), ("g", None, None), ("id", B_ID)], ("seq", [A_ID, B_ID, B_ID]), 1,
+     "the placeholder matches a master that has the id of the named parent following it (chain A/B/B against A/(-)/B)"),
 ]
 
 
@@ -331,9 +344,14 @@ def _matcher_class_run(prog, parts, chain):
 
     def item(idv):
         return Struct("tuple", [idv, Enum("tag_iterator_util::EBMLSize", {known: (Int(0, ISIZE_MAX, 64, False),)}), Int(0, 8, 64, False)])
-    lead, tail = chain[0], chain[1]
-    trail = chain[2] if len(chain) > 2 else []
     other = item(Int(OTHER[0], OTHER[1], 64, False))
+    if chain[0] == "seq":
+        lead, tail, trail = [], None, []
+        seq_cells = {i: (other if x == "o" else item(Int.const(x, 64, False))) for i, x in enumerate(chain[1])}
+    else:
+        lead, tail = chain[0], chain[1]
+        trail = chain[2] if len(chain) > 2 else []
+        seq_cells = None
     cells = {i: item(Int.const(x, 64, False)) for i, x in enumerate(lead)}
     lo = len(lead) + (tail[0] if tail else 0) + len(trail)
     hi = len(lead) + (tail[1] if tail else 0) + len(trail)
@@ -347,6 +365,9 @@ def _matcher_class_run(prog, parts, chain):
     elif tail and tail[1] <= 4:
         for j in range(tail[0]):
             cells[len(lead) + j] = other
+    if seq_cells is not None:
+        cells = seq_cells
+        lo = hi = len(seq_cells)
 
     def setup(eng_, st, frame):
         st.cells[frame.cell(1)] = Int.const(TEST_ID, 64, False)
@@ -360,8 +381,14 @@ def _matcher_class_run(prog, parts, chain):
     return got, bad, consulted["n"], body
 
 
-def r_matcher_table(ctx):
-    rep = RuleReport("R-MATCHER-TABLE", "abstract interpretation of the path matcher per class of (declared path, chain of open known-size masters): exact chain, "
+def r_matcher_table_rejects(ctx):
+    """C06's view of the table: strict mode emits only hierarchy-valid sequences, so what matters there is that every class whose prescribed
+    answer is 'reject' is rejected; a chain that is wrongly rejected yields an error, not an invalid emitted sequence (that direction is C11's)."""
+    return r_matcher_table(ctx, only_rejects=True)
+
+
+def r_matcher_table(ctx, only_rejects=False):
+    rep = RuleReport("R-MATCHER-TABLE", ("(classes with prescribed answer 'reject' decide; the others are run for totality and the known-only clause) " if only_rejects else "") + "abstract interpretation of the path matcher per class of (declared path, chain of open known-size masters): exact chain, "
                      "root element with and without open masters, chain deeper / shallower than declared, wrong parent, wrong order, trailing and "
                      "intermediate placeholders at, within and beyond their bounds, global elements: the answer is the one the declared-path "
                      "semantics prescribes; tails of chains are of arbitrary length and arbitrary other ids where the class allows")
@@ -369,8 +396,11 @@ def r_matcher_table(ctx):
     for name, parts, chain, want, why in MATCHER_CLASSES:
         got, bad, n_pred, body = _matcher_class_run(prog, parts, chain)
         rep.instance("%s: answers %s, prescribed %s" % (name, sorted(got), want))
-        rep.oblige(got == {want}, "MATCHER|%s" % name, body.span,
-                   "path matcher, class '%s' (%s): possible answers %s, prescribed %s" % (name, why, sorted(bool(x) for x in got), bool(want)))
+        if only_rejects and want == 1:
+            rep.notes.append("class '%s' (prescribed accept): answers %s — over-rejection is not this property's concern" % (name, sorted(got)))
+        else:
+            rep.oblige(got == {want}, "MATCHER|%s" % name, body.span,
+                       "path matcher, class '%s' (%s): possible answers %s, prescribed %s" % (name, why, sorted(bool(x) for x in got), bool(want)))
         rep.oblige(not bad, "MATCHER|%s|total" % name, body.span, "path matcher, class '%s': may panic (%s)" % (name, [o.desc for o in bad][:2]))
         rep.oblige(n_pred == 0, "MATCHER|%s|known-only" % name, body.span, "path matcher, class '%s': consults the closing predicate for known-size masters" % name)
     rep.analysed.append(MATCHER)
